@@ -8,6 +8,7 @@ CONSTANTS
   NWs = {1, 40}
   SFs <- SFsAll
   SRanges <- RangesC
+  Sides = {1}
   Export = TRUE
 INIT Init
 NEXT Next
